@@ -483,7 +483,8 @@ def main():
              "byte_mode": 0, "chunk_mode": 0, "saves": 0}
     for rec in recs:
         seg = segs.get(rec["seg"])
-        cid = rec["seg"]
+        # ids unique across the three packages (replay files are named by id)
+        cid = {"dhcpd": 1000, "filtering": 2000, "home": 3000}.get(a.pkg, 0) + rec["seg"]
         if only >= 0 and cid != only:
             continue
         if seg is None:
